@@ -1032,6 +1032,26 @@ class Builtins:
                 l.folds[key] = step(l.folds[key], v)
 
     def list_extend(self, l: VList, other: V, fr: Frame, node: Any) -> None:
+        if isinstance(other, VOpt):
+            other = self.unwrap(other, node, fr, "extended list")
+        if isinstance(other, VList) and not other.is_concrete():
+            # l := l ++ other with a symbolic ``other``: l becomes a symbolic list (read-through views)
+            old = VList(list(l.tail), base_len=l.base_len, base_get=l.base_get, elem_ann=l.elem_ann)
+            oth = other
+            n_old = old.length()
+            n_new = z3.simplify(n_old + oth.length())
+
+            def get(idx: Any) -> V:
+                if self.path.branch(idx < n_old):
+                    return self.list_get(old, idx, node, fr)
+                return self.list_get(oth, idx - n_old, node, fr)
+            l.tail = []
+            l.base_len = n_new
+            l.base_get = get
+            l.elem_ann = l.elem_ann or oth.elem_ann
+            l.folds = {}
+            l.log.append(VOpaque("extended"))
+            return
         for x in self.concrete_items(other):
             self.list_append(l, x, node, fr)
 
@@ -1150,6 +1170,21 @@ def h_pre(it: Any, node: ast.Call, fr: Frame) -> V:
     raise Unsupported("pre() value was not captured")
 
 
+def h_last_call(it: Any, node: ast.Call, fr: Frame) -> V:
+    """last_call("name"): the result of the last call (through its contract) of the function whose
+    qualified name ends with ``name`` on this path; an undefined value if it was not called."""
+    nm = node.args[0].value  # type: ignore
+    for q, res in reversed(it.path.cache.get(("calls",), [])):
+        if q.endswith(nm):
+            return res
+    return VOpaque("undefined.not-called")
+
+
+def h_was_called(it: Any, node: ast.Call, fr: Frame) -> V:
+    nm = node.args[0].value  # type: ignore
+    return VBool(any(q.endswith(nm) for q, _ in it.path.cache.get(("calls",), [])))
+
+
 def h_written(it: Any, node: ast.Call, fr: Frame) -> V:
     s = it.ev(node.args[0], fr)
     if not isinstance(s, VStream):
@@ -1199,6 +1234,8 @@ def h_pred(it: Any, node: ast.Call, fr: Frame) -> V:
         v = it.ev(a, fr)
         if isinstance(v, VOpt):
             v = v.val
+        if isinstance(v, VOpaque):
+            return VBool(z3.Bool(it.path.fresh_name("$pred-undefined")))
         ts.append(it.key_term(v) if not isinstance(v, VExt) else v.ident)
     f = z3.Function("pred_" + nm, *[t.sort() for t in ts], z3.BoolSort())
     return VBool(f(*ts))
@@ -1235,7 +1272,7 @@ def h_dict_written(it: Any, node: ast.Call, fr: Frame) -> V:
 
 
 HELPERS: Dict[str, Callable[..., V]] = {
-    "pred": h_pred, "final": h_final, "pre": h_pre, "dict_writes": h_dict_writes, "dict_written": h_dict_written,
+    "pred": h_pred, "final": h_final, "pre": h_pre, "last_call": h_last_call, "was_called": h_was_called, "dict_writes": h_dict_writes, "dict_written": h_dict_written,
     "implies": h_implies, "forall": h_forall, "exists": h_exists, "old": h_old, "written": h_written,
     "appended": h_appended, "appended_count": h_appended_count, "is_kind": h_is_kind,
 }
